@@ -70,7 +70,8 @@ def selectH : Handler := fun inp impl => do
 def fileOf (j : Json) : Model.C11.Name × FileC :=
   let c := intOf j "c" (-1)
   let k := intOf j "k" (-1)
-  ((strOf j "name").toList, ⟨if c < 0 then none else some c.toNat, if k < 0 then none else some k.toNat⟩)
+  ((strOf j "name").toList, ⟨if c < 0 then none else some c.toNat, if k < 0 then none else some k.toNat,
+                             if c < 0 then 0 else (intOf j "ch").toNat⟩)
 
 /-- material: `none` = nil map; otherwise the files in canonical (name) order, so that `=` is `reflect.DeepEqual` -/
 abbrev Mat := Option Blocks
@@ -79,11 +80,16 @@ def matOf (j : Json) : Mat :=
   if boolOf j "nil" then none
   else some (((arrOf j "files").map fileOf).mergeSort (fun a b => lexLe a.1 b.1))
 
+/-- identity of a made certificate as the streams observe it: the leaf's id, plus ten times the chain variant of
+the certificate file it was made from (`tls.X509KeyPair` keeps every CERTIFICATE block of that file) -/
+def certIdOf (b : Blocks) (e : Model.C11.Name × Nat) : Nat :=
+  e.2 + 10 * ((b.lookup e.1).map (·.rest)).getD 0
+
 /-- `loadCertificates` on a material (a nil map ranges over nothing and yields no certificates, no error) -/
 def mkCerts (m : Mat) : Option (List Nat) :=
   match m with
   | none => some []
-  | some b => (loadCertificates b (b.map (·.1))).map (·.map (·.2))
+  | some b => (loadCertificates b (b.map (·.1))).map (·.map fun e => certIdOf b e)
 
 def scriptOf (mats : Array Mat) (js : List Json) : List (LoadResult Mat) :=
   js.map fun j =>
@@ -502,7 +508,7 @@ def loadersH : Handler := fun inp impl => do
 def srcPem (f : Json) : FileC :=
   let c := intOf f "c" (-1)
   let k := intOf f "k" (-1)
-  ⟨if c < 0 then none else some c.toNat, if k < 0 then none else some k.toNat⟩
+  ⟨if c < 0 then none else some c.toNat, if k < 0 then none else some k.toNat, if c < 0 then 0 else (intOf f "ch").toNat⟩
 
 def st200 (n : Int) : Nat := if n == 0 then 200 else n.toNat
 
@@ -515,12 +521,12 @@ def srcLoadURL (base listURL : List Char) (e : Json) : LoadResult (Option (PemMa
      if strOf f "mode" != "" then Fetch.fail else Fetch.resp (st200 (intOf f "st")) (⟨[], srcPem f⟩ : Body))
   let list : Fetch Body :=
     if strOf e "list_mode" != "" then .fail
-    else .resp (st200 (intOf e "list_st")) ⟨linesBody (strList (arrOf e "lines")), ⟨none, none⟩⟩
+    else .resp (st200 (intOf e "list_st")) ⟨linesBody (strList (arrOf e "lines")), ⟨none, none, 0⟩⟩
   let srv : List Char → Fetch Body := fun u =>
     if u == listURL then list
     else match files.find? (fun f => base ++ f.1 == u) with
       | some f => f.2
-      | none => .resp 404 ⟨"nf".toList, ⟨none, none⟩⟩
+      | none => .resp 404 ⟨"nf".toList, ⟨none, none, 0⟩⟩
   loadURL true (fun _ => some base) srv Body.text listURL
 
 def splitSlash (s : List Char) : List (List Char) := splitOn '/' s
@@ -620,7 +626,7 @@ def sourceH : Handler := fun inp impl => do
 
 def e2eReqs : List (List Char) := ["c0.test", "c1.test", "c2.test", "c3.test", "zzz.test"].map String.toList
 
-def certSetOfIds (ids : List Nat) : CertSet := ids.map fun i => ⟨i, [("c" ++ toString i ++ ".test").toList]⟩
+def certSetOfIds (ids : List Nat) : CertSet := ids.map fun i => ⟨i, [("c" ++ toString (i % 10) ++ ".test").toList]⟩
 
 def ansInt : Answer → Int
   | .cert c => c.id
@@ -699,8 +705,9 @@ def lsnKeyFile (c : Json) : List Char :=
 /-- the files of a source: certificate `i` of the description is issued for key `i` -/
 def lsnBlocks (certs : List Json) : Blocks :=
   certs.zipIdx.flatMap fun (c, i) =>
-    if boolOf c "pair" then [(lsnCertFile c, ⟨some i, none⟩), (lsnKeyFile c, ⟨none, some i⟩)]
-    else [(lsnCertFile c, ⟨some i, some i⟩)]
+    let ch := (intOf c "chain").toNat
+    if boolOf c "pair" then [(lsnCertFile c, ⟨some i, none, ch⟩), (lsnKeyFile c, ⟨none, some i, 0⟩)]
+    else [(lsnCertFile c, ⟨some i, some i, ch⟩)]
 
 def lsnSource (s : Json) (certs : List Json) : SourceCfg :=
   if strOf s "type" == "file" then
